@@ -281,7 +281,7 @@ def infoRowsList (w : World) (j : Nat) : List Entry → Int → List (Nat × Nat
   | x :: xs, acc =>
     let d := acc + x.delta
     let rest := infoRowsList w j xs d
-    if !x.c.fp && w.dead.contains x.c.owner then rest
+    if Gen.C10.infoSkip (!x.c.fp) (w.dead.contains x.c.owner) then rest
     else (x.c.owner, fnCode x.c.fp x.c.fn, infoTimeLeft w j d) :: rest
 
 /-- get_all_call_outs -/
@@ -350,8 +350,9 @@ def runOps (w : World) (self : Nat) : List Op → World × Bool
     else if r.stop then (r.w, false)
     else runOps r.w self rest
 
-/-- the body of the do/while of call_out() for the head `cop` just taken out of the chain -/
-def fireOne (sc : Scripts) (w : World) (cop : Entry) : World :=
+/-- the body of the do/while of call_out() for the head `cop` just taken out of the chain, as the theorems use it:
+    a destructed owner's string call_out is dropped silently, its function pointer raises "owner destructed" -/
+def fireOneSpec (sc : Scripts) (w : World) (cop : Entry) : World :=
   if isDead w cop.c.owner then
     -- string call_out: dropped silently; function pointer: call_function_pointer raises "owner destructed"
     if cop.c.fp then emit w .errFpDead else w
@@ -361,6 +362,18 @@ def fireOne (sc : Scripts) (w : World) (cop : Entry) : World :=
     let w := emit w (.fire (vnow w) cop.c.owner cop.c.fn cop.c.tag w.giver)
     let w := (runOps w cop.c.owner (sc cop.c.owner cop.c.tag)).1
     { w with busy := 0 }                                                  -- free_called_call (cop); cop = 0
+
+/-- the same in the shape of the C code: the drop test is the regenerated `cop->ob && (cop->ob->flags & O_DESTRUCTED)`
+    (`cop->ob` is 0 for a function-pointer call_out); otherwise the call is made, and call_function_pointer itself
+    refuses a destructed owner.  `fireOne_eq_spec` (LemmasTie.lean) shows the two agree. -/
+def fireOne (sc : Scripts) (w : World) (cop : Entry) : World :=
+  if Gen.C10.dropCond (!cop.c.fp) (isDead w cop.c.owner) then w
+  else if isDead w cop.c.owner then emit w .errFpDead
+  else
+    let w := { w with giver := liveGiver w cop.c.giver, busy := 1 }
+    let w := emit w (.fire (vnow w) cop.c.owner cop.c.fn cop.c.tag w.giver)
+    let w := (runOps w cop.c.owner (sc cop.c.owner cop.c.tag)).1
+    { w with busy := 0 }
 
 /-- the do/while of call_out(): pop heads while their delta is zero -/
 def visit (sc : Scripts) (tm : Nat) : Nat → World → World
